@@ -388,13 +388,12 @@ def fix_starred_imports(source: str) -> str:
             untraced_names.add(name)
 
     # The names are traced to the last starred import that provides them. An earlier starred
-    # import of the same module provides them as well, to the code between the two.
-    module_names = collections.defaultdict(set)
-    for node, names in starred_import_name_mapping.items():
-        module_names[(node.level, node.module)].update(names)
+    # import that provides them as well does so for the code between the two.
+    traced_names = sorted(set().union(*starred_import_name_mapping.values()))
     for node in template:
-        if module_names[(node.level, node.module)]:
-            starred_import_name_mapping[node] = module_names[(node.level, node.module)]
+        node_source = core.get_code(node, source)
+        if node_names := {name for name in traced_names if trace_origin(name, node_source)}:
+            starred_import_name_mapping[node].update(node_names)
 
     for node, names in starred_import_name_mapping.items():
         if names:
